@@ -23,7 +23,7 @@ ASSUMPTIONS = [
     "object vectors are generated only from values whose str() order equals their natural order (strings, bools), because the library sorts objects by str(x) while rank uses <",
     "strings containing U+0000 are not generated (fixed-width NumPy strings strip trailing NULs)",
 ]
-REACH = {"quick": {"len:0": 100, "na:all": 100, "kind:lstr": 100, "kind:ostr": 50, "fn:rank": 1000, "fn:sort": 1000, "fn:unique": 500, "tag:big": 10, "after-inplace-edit": 1000}}
+REACH = {"quick": {"len:0": 100, "na:all": 100, "kind:lstr": 100, "kind:ostr": 50, "fn:rank": 1000, "fn:sort": 1000, "fn:unique": 500, "tag:big": 5, "after-inplace-edit": 1000}}
 
 KINDS = ["bool", "int", "float", "str", "str", "lstr", "ustr", "date", "datetime", "ostr", "obool", "timedelta", "int_be", "float_be", "datetime_be", "tstr"]
 
